@@ -213,7 +213,7 @@ class Ctx:
                 self.known_hits[fid] = self.known_hits.get(fid, 0) + 1
                 return False
         if len(self.violations) < 25:
-            d = os.path.join(VERIF, "replay", self.pid)
+            d = os.path.join(os.environ.get("VERIF_REPLAY_DIR") or os.path.join(VERIF, "replay"), self.pid)
             os.makedirs(d, exist_ok=True)
             path = os.path.join(d, "%s-%d-%d.json" % (self.tier, self.seed, len(self.violations)))
             with open(path, "w") as fh:
@@ -238,8 +238,9 @@ class Ctx:
         ev = {"property_id": self.pid, "tier": self.tier, "seed": self.seed, "level": self.level,
               "coverage": cov, "assumptions": self.assumptions, "wall_s": round(wall, 2),
               "violations": len(self.violations)}
-        os.makedirs(os.path.join(VERIF, "evidence"), exist_ok=True)
-        with open(os.path.join(VERIF, "evidence", self.pid + ".json"), "w") as f:
+        evdir = os.environ.get("VERIF_EVIDENCE_DIR") or os.path.join(VERIF, "evidence")
+        os.makedirs(evdir, exist_ok=True)
+        with open(os.path.join(evdir, self.pid + ".json"), "w") as f:
             json.dump(ev, f, indent=1, default=str)
         for f in self.findings:
             fid = f.get("id") or f.get("what")
